@@ -242,6 +242,12 @@ bool BlockHDF5::removeEntity(const nix::Identity &ident) {
         }
     }
 
+    // an alias range dimension holds a hard link to the array itself, which would
+    // keep the deleted array's storage (and stale handles) alive
+    if (ident.type() == ObjectType::DataArray) {
+        DataArrayHDF5(file(), block(), *eg).deleteDimensions();
+    }
+
     // we get first "entity" link by name, but delete all others whatever their name with it
     std::string name;
     eg->getAttr("name", name);
